@@ -145,6 +145,21 @@ CHECKS = {
         'the documented formula as an exact rational function; the loop has no exit other than max_iter; no hyper-parameter is reassigned. '
         'Equality of the iterates with a reference run for a seed is NOT decided.'),
   note=TB + ' Hyper-parameter ranges of the property quantifier (gamma > 0, max_iter >= output_iter >= 1).'),
+ 'C16': dict(
+  technique='static analysis: symbolic evaluation of the accuracy sweep in a positional-count algebra (every vector described entry by entry with affine index maps over the sorted order, prefix/suffix counts normalised to one form), exact rational-function comparison of the F-beta criterion, normalised linear comparisons for the admissible sets, API-argument rule on roc_curve / precision_recall_curve, must-precede rule for parameter validation',
+  text=('Decides ONLY the structural necessary conditions of optimality that live in the shape of calibrate_threshold: accuracy - with '
+        'the scores in decreasing order and a reject-all candidate strictly above the largest, entry j of the criterion is (positives '
+        'among the j accepted) + (negatives among the rest) up to a positive factor and a constant, criterion and candidate vectors '
+        'are aligned entry by entry, the arg-max ranges over the attainable cuts only (never inside a group of tied scores; plus '
+        'reject-all and accept-all) and threshold_ is minus the candidate at the chosen entry; f_beta - the criterion is '
+        '(1+beta^2) P R / (beta^2 P + R) as an exact rational function of the precision_recall_curve(y_valid, decision scores, '
+        'pos_label=1) outputs, NaN entries are zeroed before the arg-max; max_tpr / max_tnr - roc_curve(..., pos_label=1, '
+        'drop_intermediate=False) so that no candidate threshold is dropped, admissible sets {1 - fpr >= min_rate} / {tpr >= min_rate} '
+        'and objectives tpr / 1 - fpr as normalised linear forms, the arg-max inside the admissible set is mapped back through the '
+        'index set; parameters are validated before any work; ITML/MMC/SDML.fit calibrate on the training pairs with the given '
+        'calibration_params. That the stored threshold attains the optimum on a given validation set (behaviour of the scikit-learn '
+        'curve functions, floating-point ties) is NOT decided.'),
+  note=TB + ' Library semantics assumed: precision_recall_curve / roc_curve return the rates at every distinct score in decreasing threshold order, the first ROC point rejecting every pair; predict accepts distance <= threshold_ (decided by C04).'),
  'C17': dict(
   technique='static analysis: ownership/aliasing abstract interpretation (FRESH: view- vs copy-producing operations) of every in-place write construct, who-may-call / value-flow rule for random generators and seeded components, typestate (read-before-assign of fitted attributes, conditional assignment), transitive effect sets of query methods, closure free-variable freshness',
   text=('Decides over all call histories, for all 17 estimators: no global numpy.random/random call and every draw is on '
@@ -191,9 +206,6 @@ CHECKS = {
 
 _PENDING = 'check not built yet in this revision of /verif (see DESIGN.md section 9 build order); nothing is claimed for it'
 NOT_APPLICABLE = {}
-NOT_APPLICABLE['C16'] = ('optimality of a cut-off over a labelled multiset of distances with ties is a property of runtime '
-                         'values; no structural necessary condition of it exists that a sound static rule can name without '
-                         'also firing on correct tie-aware rewrites; its parameter-validation sentence is checked as C06(7)')
 NOTES = ('All checks are static: they parse /repo/metric_learn on every run, never import or execute it. Exit 0 = every '
          'obligation derived; exit 1 + VIOLATION = an obligation refuted; exit 2 = ANALYSIS-ERROR / INCONCLUSIVE (anchor '
          'vanished, construct outside the transfer tables). Known findings: /verif/known_findings.json.')
